@@ -199,6 +199,12 @@ def real_headers(rng, names, edges, funcs_only, force_hidden=False, force_shared
                         # the inheritance goes through an intermediate class that publishes nothing
                         out += ["class %s_H%d : public %s {" % (U, n, base), "public:", "  int hidden_%d();" % n, "};"]
                         pub_lib["%s_H%d" % (U, n)] = pub_lib[base]
+                        if rng.chance(1, 3):
+                            # a second class without published members that this library never mentions again: only a
+                            # library that derives from it will record it at all
+                            out += ["class %s_X%d : public %s {" % (U, n, base), "public:", "  int lonely_%d();" % n, "};"]
+                            pub_lib["%s_X%d" % (U, n)] = pub_lib[base]
+                            hidden[u].append("%s_X%d" % (U, n))
                         base = "%s_H%d" % (U, n)
                         hidden[u].append(base)
                     kw = rng.choice(["class", "struct", "struct"])
